@@ -33,6 +33,10 @@ def scenarios(tier, seed):
         {"blocks": {"1": [[1, 300 * K], [2, 300 * K]], "2": [[2, 600 * K]], "3": [[1, 10], [2, 10]], "4": []}, "filter": [1]},
         {"blocks": {"1": [[1, 10]], "2": [[2, 900 * K]], "3": [[2, 900 * K]], "4": [[1, 20], [1, 20]]}, "filter": [1]},
         {"blocks": {"1": [], "2": [], "3": []}, "filter": []},
+        # blocks keep arriving while one is pushed back and a submission is in flight
+        {"blocks": one(100, 600 * K, 600 * K, 100, 100), "filter": []},
+        {"blocks": one(100, 700 * K, 700 * K, 700 * K, 10), "filter": []},
+        {"blocks": one(300 * K, 300 * K, 600 * K, 200 * K, 900 * K, 50), "filter": []},
         # a block that fits nowhere: the submitter must exit rather than drop or split it
         {"blocks": one(100, 1100 * K, 100), "filter": [], "expect_failed": True},
     ]
